@@ -112,9 +112,11 @@ def mk_index(r, values, form, pad=True):
 
 # ================================================================================================ spec generator
 class SpecGen:
-    def __init__(self, r, opts):
+    def __init__(self, r, opts, long_lists=False, special_rate=0.0):
         self.r = r
         self.opts = opts
+        self.long_lists = long_lists        # one list per list node has 17..40 items (sort/partition thresholds)
+        self.special_rate = special_rate    # extra density of NaN/inf among floating point items
 
     def array(self, t, n, wrap=True):
         """spec of an array of type t with exactly n elements. wrap=False: directly inside an option or union node,
@@ -184,8 +186,9 @@ class SpecGen:
         pad = r.choice([0, 0, 0, 1, 2])
         total = pad + max(0, (n - 1) * stride_items + 1 if n > 0 else 0) + r.choice([0, 0, 1])
         items = [rand_scalar(r, dt) for _ in range(total)]
-        if dt == "uint8" and False:
-            pass
+        if self.special_rate and dt in ("float32", "float64"):
+            items = [r.choice([float("nan"), float("nan"), float("inf"), float("-inf"), -0.0])
+                     if r.random() < self.special_rate else x for x in items]
         unit = "s" if dt in ("datetime64", "timedelta64") else ""
         return {"k": "numpy", "dtype": dt, "buf": pack_items(dt, items).hex(), "shape": [n], "strides": [stride_items * isz],
                 "byteoffset": pad * isz, "unit": unit}
@@ -205,6 +208,8 @@ class SpecGen:
     def listlike(self, inner, n, param=None):
         r = self.r
         lens = [r.choice([0, 0, 1, 1, 2, 3, 4]) for _ in range(n)]
+        if self.long_lists and n > 0 and param is None:
+            lens[r.randrange(n)] = r.randint(17, 40)
         enc = r.choice(["listoffset", "listoffset", "list"]) if param is None else r.choice(["listoffset", "listoffset", "list"])
         w = r.choice(LISTW)
         if enc == "listoffset":
